@@ -46,6 +46,7 @@ type scriptScn struct {
 	CutErr    [2]string   `json:"cuterr"`  // "", "timeout", "temporary": the kind of error the failing trunk.Write returns (see recConn)
 	Blocked   [2]bool     `json:"blocked"` // the side's reader stays blocked until an "unblock" act
 	Raw       [2]bool     `json:"raw"`     // the side is a bare transport end without a Mux
+	RdFail    [2]int      `json:"rdfail"`  // k > 0: the side's trunk Read fails once with a time-out at offset k-1 of its incoming stream, then carries on
 	Plain     [2]bool     `json:"plain"`   // the side's Mux is created WITHOUT WithBlockedRead: never blocked, Unblock is not called at set-up
 	Acts      []act       `json:"acts"`
 }
@@ -150,6 +151,11 @@ func execScript(s *scriptScn) *scriptObs {
 		return o
 	}
 	recs := [2]*recConn{newRecErr(ca, s.Cut[0], s.CutErr[0]), newRecErr(cb, s.Cut[1], s.CutErr[1])}
+	for i := 0; i < 2; i++ {
+		if s.RdFail[i] > 0 {
+			recs[i].rdFailAt = s.RdFail[i] - 1
+		}
+	}
 	defer func() {
 		recs[0].Conn.Close()
 		recs[1].Conn.Close()
